@@ -57,6 +57,8 @@ def replay(f):
             return dict(reproduced=True, signature="c09:outside_root:%s" % op["api"], detail="%s touched %s outside the project root" % (op, outside))
         if "ignored_mod.py" in inside:
             return dict(reproduced=True, signature="c09:touches_ignored:%s" % op["api"], detail="%s modified the ignored resource" % op)
+        if op.get("resources") is not None and not (inside | announced) <= set(op["resources"]):
+            return dict(reproduced=True, signature="c09:outside_resources:%s" % op["api"], detail="%s announced %s and wrote %s although restricted to resources=%s" % (op, sorted(announced), sorted(inside), op["resources"]))
         extra = sorted(x for x in inside if x not in announced and not any(a.startswith(x + "/") for a in announced))
         if extra:
             return dict(reproduced=True, signature="c09:unannounced:%s" % op["api"], detail="%s wrote %s, announced only %s" % (op, extra, sorted(announced)))
